@@ -28,7 +28,7 @@ package vm
 //verif:bound Verify end to end: arguments decoded by the real ReadVarstrList from one 8-byte buffer holding any well-formed list of <= 3 arguments of <= 3 bytes with arbitrary content, one state item with spare capacity, the program with 2 bytes of spare capacity; menu of 14 programs of <= 7 instructions over splice/stack/bitwise/numeric opcodes with arbitrary push data, gas limit 10000
 //verif:bound long-item step lemma (VerifC06Wide): opcode groups 0x70..0xaf and 0xc0..0xcf (every opcode that converts items to numbers: PICK/ROLL, SUBSTR/LEFT/RIGHT, 1ADD..WITHIN, shifts, CHECKMULTISIG counts, CHECKOUTPUT; CHECKPREDICATE via VerifC06PredicateWide with the long item as limit, as count or handed to the child running 1ADD / DUP 0 LEFT DROP / 1 SWAP ADD); data stack of 1..3 items (CHECKOUTPUT: 5, thorough) of which ONE, at every position, is a 32-byte (thorough: 31, 33) window of a second 36-byte caller buffer with spare capacity; quick: its lowest and highest byte (sign bit free) and all surrounding bytes arbitrary, bytes between fixed to distinct non-zero values; thorough: all 32 bytes arbitrary; the other items <= 1 byte from the shared 8-byte buffer
 //verif:bound long-argument Verify (VerifC06VerifyWide): argument list {long, 1 byte} decoded by the real ReadVarstrList from one buffer, 9 programs (SWAP 1ADD, ADD, 0NOTEQUAL, LEFT, SWAP RIGHT, OVER LESSTHAN, DUP 1 <1ADD> 0 CHECKPREDICATE, SWAP PICK, 1 LSHIFT), gas 10000
-//verif:bound result-lifetime lemma (VerifC06Seq): programs <op1> SWAP <op2> with op1, op2 each any of 10 unary opcodes (SHA256, SHA3, HASH160, INVERT, 1ADD, 1SUB, 2MUL, 2DIV, NOT, 0NOTEQUAL), two 2-byte items with arbitrary content at fixed windows [0:2:4] and [3:5:8] of one 8-byte buffer (spare capacity of the first overlaps the second), run with the real step(); sync.Pool modelled as handing back the object Put last (pool=reuse)
+//verif:bound result-lifetime lemma (VerifC06Seq): programs <op1> SWAP <op2> and <op1> TOALTSTACK <op2> (VerifC06SeqAlt) with op1, op2 each any of 10 unary opcodes (SHA256, SHA3, HASH160, INVERT, 1ADD, 1SUB, 2MUL, 2DIV, NOT, 0NOTEQUAL), two 2-byte items with arbitrary content at fixed windows [0:2:4] and [3:5:8] of one 8-byte buffer (spare capacity of the first overlaps the second), run with the real step(); sync.Pool modelled as handing back the object Put last (pool=reuse)
 //verif:assume context callbacks: TxSigHash returns a fixed arbitrary 32-byte value, CheckOutput returns fixed arbitrary (ok, err) -- the same for both runs
 //verif:assume hash functions and ed25519.Verify are uninterpreted functions of the byte values
 //verif:outside MUL/DIV/MOD with the long item as the deeper (left) operand, and as right operand with fully arbitrary content (256-bit by 8-bit product/quotient is beyond the solver; right operand with the quick content pattern and single operand are covered); Verify-level SWAP PICK with fully arbitrary long content (the recovered runtime panic's Error() text is not encodable; the step lemma covers that exit through a recover wrapper); layouts spanning more than two caller buffers, items of 4..30 bytes and above 33 bytes, data stacks deeper than 4 in the step lemma; CHECKPREDICATE child programs outside the menu; Verify programs outside the menu (the step lemma is the general argument, Verify is the end-to-end cross-check); the trace writer (TraceOut != nil); inside the region of KF-C06-CAT-APPEND other causes of the same assertion failures are not distinguished (the region is exact for the step lemma and CHECKPREDICATE, and 'program contains CAT/CATPUSHDATA' at the Verify level)
@@ -43,6 +43,7 @@ package vm
 //verif:obligation fn=VerifC06Step args=149,151,2,0,1 loops=300 secs=900 idx=ite timeout=120000
 //verif:obligation fn=VerifC06Step args=149,151,3,0,1;149,151,2,1,1 loops=300 secs=3000 idx=ite timeout=120000 tier=thorough
 //verif:obligation fn=VerifC06Seq args=0,3;4,7;8,11 pool=reuse secs=300 validate=10
+//verif:obligation fn=VerifC06SeqAlt args=0,3;4,7;8,11 pool=reuse secs=300 validate=10
 //verif:obligation fn=VerifC06Predicate args=2,2 idx=ite secs=900 validate=10
 //verif:obligation fn=VerifC06Predicate args=3,3 idx=ite secs=3000 tier=thorough
 //verif:obligation fn=VerifC06Verify args=0,8,3;1,8,3;2,8,3;3,8,3;4,8,3;5,8,3;6,8,3;7,8,3;8,8,3;9,8,3;10,8,3;11,8,3;12,8,3;13,8,3;14,8,3;15,8,3 secs=900 validate=10
@@ -448,6 +449,35 @@ func VerifC06Seq(lo int, hi int) {
 	if err == nil {
 		verifObserveBytes("second", vm.dataStack[1])
 		verifReach("VerifC06Seq:ok")
+	}
+}
+
+// the same lemma with op1's result parked on the alt stack: <op1> TOALTSTACK <op2>
+func VerifC06SeqAlt(lo int, hi int) {
+	i1 := lo + verifChoice("op1", hi-lo+1)
+	i2 := verifChoice("op2", len(verifC06SeqOps))
+	buf := verifBytesN("buf", verifC06BufLen)
+	a, b := buf[0:2:4], buf[3:5:8]
+	prog := []byte{byte(verifC06SeqOps[i1]), byte(OP_TOALTSTACK), byte(verifC06SeqOps[i2])}
+	one := uint64(1)
+	bufSnap := verifC06Copy(buf)
+	vm := &virtualMachine{context: &Context{VMVersion: 1, TxVersion: &one, Code: prog}, program: prog, runLimit: 100000, dataStack: [][]byte{a, b}}
+	if verifC06StepRecovered(vm) != nil {
+		return
+	}
+	verifAssert(len(vm.dataStack) == 2, "seqalt-unary-op-keeps-depth")
+	first := verifC06Copy(vm.dataStack[1])
+	if verifC06StepRecovered(vm) != nil {
+		verifAssert(false, "seqalt-toaltstack-succeeds")
+		return
+	}
+	verifAssert(len(vm.altStack) == 1 && bytes.Equal(vm.altStack[0], first), "seqalt-toaltstack-moves-the-result-unchanged")
+	err := verifC06StepRecovered(vm)
+	verifObserveBool("err2", err != nil)
+	verifAssert(len(vm.altStack) == 1 && bytes.Equal(vm.altStack[0], first), "earlier-result-on-alt-stack-unchanged-by-later-operation")
+	verifAssert(bytes.Equal(buf, bufSnap), "seqalt-caller-buffer-unchanged")
+	if err == nil {
+		verifReach("VerifC06SeqAlt:ok")
 	}
 }
 
